@@ -18,6 +18,8 @@
       9  (harness watchdog) Run did not return although every handler was observed stopped,
          Close was called, or the context was cancelled with every (>= 1) handler subscribed
          and all subscriptions following the Run context
+      11 (harness watchdog) Run did not return after its context was cancelled on a router that
+         has no handler (known finding D15: the watcher only waits for handlerAdded / closedCh)
     No proofs here. *)
 From WM Require Import Base.Prelude RouterLife.Model.
 From RecordUpdate Require Import RecordSet.
@@ -115,7 +117,8 @@ Definition mon_step (m : mstate) (e : aev) : mstate :=
       else if m_closecalled m
               || (Nat.ltb 0 (m_n m) && forallb (m_stoppedobs m) (seq 0 (m_n m)))
               || (m_cancelled m && negb (m_weak m) && Nat.ltb 0 (m_n m) && forallb (m_subs m) (seq 0 (m_n m)))
-      then bad m 9 else m
+      then bad m 9
+      else if m_cancelled m && Nat.eqb (m_n m) 0 then bad m 11 else m
   end.
 
 Definition mon_run (m : mstate) (es : list aev) : mstate := fold_left mon_step es m.
